@@ -3,10 +3,10 @@
 package rpc
 
 import (
-	"runtime"
 	"bytes"
 	"compress/gzip"
 	"io"
+	"runtime"
 	"strings"
 	"testing"
 	"time"
